@@ -169,3 +169,4 @@ Print Assumptions C05_bytes_trim_end_eq.
 Print Assumptions C05_bytes_trim_eq.
 Print Assumptions C05_bytes_trim_commutes.
 Print Assumptions C05_ws_set_refuted.
+Print Assumptions C05_trim_example.
